@@ -47,6 +47,8 @@ class Walker:
         self.compactions = 0          # compaction rounds triggered so far in this history (all lifetimes)
         self.comp_seen = False        # a compaction hand-over gate was reached (also by a round that was then killed)
         self.comp_at = {}
+        self.flush_seen = False       # some segment has been published by a flush (this or an earlier lifetime)
+        self.flushed_at = {}
         self.clock_regressed = False  # some lifetime started at or before the latest wall-clock value seen earlier
         self.max_wall = None
         self.samples = []
@@ -62,7 +64,8 @@ class Walker:
              "after_restart": li > 0, "after_crash": self.crashed_prev,
              "parked": self.parked_at.get((li, si), []), "tag": self.cur_tag, "feat": self.cur_feat,
              "compacted": self.compactions > 0 or self.comp_at.get((li, si), False) or (si < 0 and self.comp_seen), "flush_parked": any(g.startswith("flush") for g in self.parked_at.get((li, si), [])),
-             "clock_regressed": self.clock_regressed}
+             "clock_regressed": self.clock_regressed,
+             "flushed": self.flushed_at.get((li, si), self.flush_seen)}
         d.update(kw)
         self.viol.append(d)
 
@@ -102,6 +105,8 @@ class Walker:
             t = e.get("t")
             if t == "gate" and str(e.get("name", "")).startswith("compact."):
                 self.comp_seen = True
+            if t == "gate" and e.get("name") == "flush.published":
+                self.flush_seen = True
             if t == "gate" and e.get("parked"):
                 parked_now[e.get("rule")] = e.get("name")
             elif t == "release":
@@ -109,6 +114,7 @@ class Walker:
             elif t == "issue":
                 self.parked_at[(li, e["step"])] = sorted(parked_now.values())
                 self.comp_at[(li, e["step"])] = self.comp_seen
+                self.flushed_at[(li, e["step"])] = self.flush_seen
             if t == "resp":
                 resp_by_step[e["step"]] = e
             elif t == "issue":
@@ -244,6 +250,10 @@ class Walker:
         if r.kind == "plain" and r.status == 200:
             if not meta.get("valid", True):
                 self.v("accepted-invalid", li, si, f"invalid payload accepted: {meta['payload']}", vclass=meta.get("vclass"), feat=meta.get("vclass"))
+            elif meta["type"] not in self.model.schemas:
+                # every DEFINE of this type so far was answered with an error: the type is undefined
+                self.v("accepted-invalid", li, si, f"STORE for event type {meta['type']!r} accepted although no DEFINE of it succeeded",
+                       vclass="invalid:undefined-after-failed-define", feat="invalid:undefined-after-failed-define")
                 # it is in the store now; track it so that later reads are not reported as foreign
             ev = Ev(meta["k"], meta["type"], meta["ctx"], meta["payload"], ts, li, si,
                     len(self.model.events), meta.get("stored"))
